@@ -17,6 +17,20 @@ type NotAfter struct {
 	Late  []string
 	Name  string
 	Min   int // minimum number of Late call sites
+	// EarlyOK / LateOK optionally restrict which calls count (e.g. by receiver).
+	EarlyOK, LateOK func(c *Ctx, call *ast.CallExpr) bool
+}
+
+func nodeCallsWhere(c *Ctx, n *GNode, ns NameSet, ok func(c *Ctx, call *ast.CallExpr) bool) bool {
+	if n.Ast == nil || n.Go || n.Defer {
+		return false
+	}
+	for _, call := range CallsIn(n.Ast) {
+		if ns.Has(Callee(c.Info, call)) && (ok == nil || ok(c, call)) {
+			return true
+		}
+	}
+	return false
 }
 
 func (na NotAfter) Check(r *Run) {
@@ -28,7 +42,7 @@ func (na NotAfter) Check(r *Run) {
 	early, late := Names(na.Early...), Names(na.Late...)
 	var lateNodes []*GNode
 	for _, n := range fl.G.Nodes {
-		if fl.Live(n) && nodeCalls(fl.C, n, late, false) {
+		if fl.Live(n) && nodeCallsWhere(fl.C, n, late, na.LateOK) {
 			lateNodes = append(lateNodes, n)
 		}
 	}
@@ -40,7 +54,7 @@ func (na NotAfter) Check(r *Run) {
 	reach := fl.G.Reachable(lateNodes, func(e *GEdge) bool { return !fl.Feasible(e) }, nil)
 	nEarly := 0
 	for _, n := range fl.G.Nodes {
-		if !fl.Live(n) || !nodeCalls(fl.C, n, early, false) {
+		if !fl.Live(n) || !nodeCallsWhere(fl.C, n, early, na.EarlyOK) {
 			continue
 		}
 		nEarly++
